@@ -206,6 +206,10 @@ class Lib:
                 if k in pytypes and not hasattr(pytypes[k], name):
                     yield st, Raise(mk_exc(st, "AttributeError", "'%s' object has no attribute '%s'" % (k, name)))
                     return
+            if k == "opaque:float":
+                if not hasattr(float, name):
+                    yield st, Raise(mk_exc(st, "AttributeError", "'float' object has no attribute '%s'" % name))
+                    return
             raise Unsupported("method %s.%s" % (k, name))
         yield from f(ip, st, recv, args, kwargs)
 
